@@ -487,6 +487,12 @@ func CollectionProgs() []Prog {
 			return func(t *rapid.T, r *Rec) {
 				v := g.Draw(t, "p")
 				r.Draws = append(r.Draws, Render(v))
+				// the test code owns the drawn slice: modifying it in place must not reach the generator's input
+				chk := append([]int(nil), v...)
+				for i := range v {
+					v[i] = -1 - i
+				}
+				v = chk
 				if len(in) != len(orig) || (len(in) > 0 && !reflect.DeepEqual(in, orig)) {
 					r.bad("Permutation modified its input: %v", in)
 				}
@@ -760,6 +766,16 @@ func MachineProgs() []Prog {
 						rapid.Bool().Draw(t, "c")
 						t.Skip("c")
 					},
+				})
+			}
+		}},
+		{Name: "Repeat(put,Put,PUT: names differing only by case)", Tags: "machine rej", New: func() func(t *rapid.T, r *Rec) {
+			return func(t *rapid.T, r *Rec) {
+				t.Repeat(map[string]func(*rapid.T){
+					"put": func(t *rapid.T) { r.Draws = append(r.Draws, fmt.Sprintf("put%d", rapid.IntRange(0, 3).Draw(t, "v"))) },
+					"Put": func(t *rapid.T) { r.Draws = append(r.Draws, fmt.Sprintf("Put%v", rapid.Bool().Draw(t, "v"))) },
+					"PUT": func(t *rapid.T) { r.Draws = append(r.Draws, "PUT") },
+					"get": func(t *rapid.T) { r.Draws = append(r.Draws, "get") },
 				})
 			}
 		}},
